@@ -686,6 +686,9 @@ impl<'a, 'b> W<'a, 'b> {
                                     match c {
                                         '&' => t.push_str("&amp;"),
                                         '<' => t.push_str("&lt;"),
+                                        // a literal '>' is legal in character data unless it completes "]]>" there (a CDATA
+                                        // section that ends with "]]" in front of it does not count: its end marker intervenes)
+                                        '>' if !t.ends_with("]]") && !(t.is_empty() && self.out.ends_with("]]") && !self.out.ends_with("]]>")) && self.lex.flag(2) => t.push('>'),
                                         '>' => t.push_str("&gt;"),
                                         '\r' => t.push_str("&#13;"),
                                         '\n' => {
